@@ -6,6 +6,8 @@ def nontrivial(cmd, inp, impl, prev):
         return True
     if cmd == "pix.color":
         return True
+    if cmd == "pix.obj":
+        return any(len(t) > 12 for t in impl.split(" "))
     return any(len(t) > 8 for t in impl.split(" "))
 
 PROP = dict(
@@ -15,8 +17,14 @@ PROP = dict(
     rule="pix.color: every colour code 0..255 (all 64 six-bit colours x the two don't-care bits) through both setters; "
          "pix.export: all 64x64 pixel/background pairs, canvas size walking over every size 0..24 x 0..12 (thorough 0..64 x 0..64, "
          "every size at least once), random/constant bit patterns incl. padding bits, RGB565 and grey export; "
-         "pix.rt: every size x both invert values, ConvertToImage then CreateFromImage; pix.fromimg: random RGBA images with red "
-         "values around the threshold; pix.gfx: the three formats, for every size 0..6 x 0..3 (mono also widths +6, +14; thorough "
+         "pix.rt: every size x both invert values, ConvertToImage then CreateFromImage into a fresh object and into used ones "
+         "(96x80 all lit; exactly the same size all lit; another shape of exactly the same byte size all lit); pix.fromimg: random "
+         "RGBA images with red values around the threshold, same destinations; pix.obj: n/2 call sequences on ONE object, 3-9 calls "
+         "in any order out of {SetOLEDPixelColor, SetOLEDBckgColor, NewImage, CreateFromBytes short/exact/long, FillRect, "
+         "CreateFromImage of a converted mono image / of an RGBA image / of the object's own ConvertToImage, export}, every second "
+         "(re)creation with exactly the byte size the object already holds (same size, same byte column count, transposed), "
+         "colour fields, canvas and both exports printed call by call; pix.gfx / pix.gfxo (30% of the states: XYoffset, X, Y "
+         "set to non-default values): the three formats, for every size 0..6 x 0..3 (mono also widths +6, +14; thorough "
          "0..10 x 0..5) every data length 0..needed+2, then n random states up to 24x12 (thorough 64x64) with data shorter / equal / "
          "longer, then declared sizes up to 320 pixels per side; each through CreateImgObjectFrom*Bytes, RwpImgToImage at the declared "
          "size and on a random smaller/larger target canvas, and ConvertGfxStateToPngBytes decoded with image/png; "
@@ -50,8 +58,14 @@ CLAIM = dict(
          "panics); rwp_uncovered_black: the rest of RwpImgToImage's canvas is black; sliceGray_content: every byte of the grey export "
          "for every width (odd widths pair the last pixel of a row with the padding bit); export_of_long: a CreateFromBytes slice "
          "longer than needed is installed as is and the exports ignore the surplus. "
+         "One object used more than once (Model/Pix.lean Obj / ObjCall): applyObj_good / runObj_good - no call of any history of "
+         "colour setters, (re)creations from sizes, byte slices and image objects, drawing and exports panics and the canvas stays "
+         "well-formed; obj_export_holds - after ANY such history both exports satisfy clause (1) for the colours the object shows at "
+         "that moment; obj_roundtrip_holds / obj_self_roundtrip_holds - a conversion into a used object does not depend on what it "
+         "held and satisfies clause (3). The placement fields XYoffset/X/Y of a graphics message are parameters of no conversion "
+         "(Spec and model): routines agree, centred placement (rwp_centering). "
          "The same Spec predicates are evaluated on the real library's outputs and model = code is checked on "
-         "generated records (all 64x64 colour pairs, all sizes of the grid, every truncation length for small images). Finding fixed by the "
+         "generated records (all 64x64 colour pairs, all sizes of the grid, every truncation length for small images, call sequences on one object in every order of set colours / (re)create / draw / export incl. re-creation with exactly the byte size already held, graphics messages with the placement fields set). Finding fixed by the "
          "patch: with mono data shorter than declared the PNG path rendered all black while RwpImgToImage expanded the bytes present "
          "(short_mono_png_black_counterexample).",
     note=TB + "image.RGBA / image/draw / image/png are trusted as modelled (PNG identity additionally compared on every run). Go int unbounded.",
